@@ -37,6 +37,9 @@ def _is_sink(fa, call, name):
     return None
 
 
+# ufl.algorithms.analysis.extract_type "Build a set of all objects found in a whose class is in ufl_types"
+LIBRARY_SET_RETURNING = {"extract_type"}
+
 STABLE_ELEM_ANN = ("set[int]", "set[bool]", "set[tuple[int, ...]]", "set[basix.CellType]", "frozenset[int]")
 
 
@@ -76,11 +79,21 @@ class OrderClient(Config):
         return True
 
     def source(self, fa, node):
-        # parameters / attributes annotated as set[...] are handled at their construction sites
+        # E6 library facts: functions of ufl/basix that return an unordered set of UFL objects
+        if isinstance(node, ast.Call):
+            last = node.func.attr if isinstance(node.func, ast.Attribute) else (call_name(node) or "")
+            if last in LIBRARY_SET_RETURNING:
+                return frozenset({(SET, fa.site(node, "library-set:" + last))})
         return EMPTY
 
     def sink(self, fa, call, name):
-        return _is_sink(fa, call, name)
+        s = _is_sink(fa, call, name)
+        if s:
+            return s
+        last = name.split(".")[-1] if name else ""
+        if name.startswith("hashlib.") or last in ("compute_expression_signature",):
+            return f"signature hash {name}(...)"
+        return None
 
 
 class HistoryClient(Config):
@@ -121,6 +134,9 @@ class HistoryClient(Config):
                     "uuid.uuid4", "uuid.uuid1", "datetime.now", "datetime.datetime.now", "tempfile.mkdtemp", "tempfile.mktemp",
                     "tempfile.mkstemp") or nm.startswith("random.") or nm.startswith("np.random.") or nm.startswith("secrets."):
             what = nm + "()"
+        if nm == "next" and node.args and isinstance(node.args[0], ast.Name) and node.args[0].id in fa.mod.assigns \
+                and node.args[0].id not in fa.params:
+            what = f"next({node.args[0].id}) on a module-level iterator"
         if what is None:
             return EMPTY
         return frozenset({(VAL, fa.site(node, "history:" + what))})
@@ -145,12 +161,12 @@ def _run(repo, client):
 
 @rule(
     "ORDER-TAINT",
-    ["C12"],
+    ["C12", "C13"],
     "forward taint analysis over the whole package (flow-sensitive via reaching definitions, "
     "interprocedural summaries, record fields by name): an unordered collection with unstable "
     "element hashes (str, L.Symbol, basix elements, UFL objects) that is iterated / converted to "
-    "an ordered value without sorted() must not reach LNodes construction, a template format call "
-    "or the list of emitted code blocks",
+    "an ordered value without sorted() must not reach LNodes construction, a template format call, "
+    "the list of emitted code blocks or a signature hash",
     min_instances=20,
 )
 def order_taint(repo, res):
@@ -223,6 +239,8 @@ def history_id(repo, res):
         )
 
 
+STATEFUL_CTORS = {"dict", "list", "set", "defaultdict", "OrderedDict", "Counter", "deque", "count", "cycle", "iter",
+                  "bytearray", "WeakValueDictionary", "WeakKeyDictionary", "SimpleNamespace"}
 MUTATING = {"append", "extend", "insert", "add", "update", "setdefault", "pop", "popitem", "clear", "remove", "discard", "sort", "reverse", "__setitem__"}
 
 
@@ -237,7 +255,8 @@ def global_state(repo, res):
     for m in repo.modules.values():
         mutable_globals = {}
         for name, val in m.assigns.items():
-            if isinstance(val, (ast.Dict, ast.List, ast.Set)) or (isinstance(val, ast.Call) and call_name(val) in ("dict", "list", "set", "defaultdict", "collections.defaultdict")):
+            if isinstance(val, (ast.Dict, ast.List, ast.Set, ast.ListComp, ast.DictComp, ast.SetComp)) or (
+                isinstance(val, ast.Call) and (call_name(val) or "").split(".")[-1] in STATEFUL_CTORS):
                 mutable_globals[name] = val
         for g in mutable_globals:
             res.ob(f"{m.name}:global:{g}")
@@ -280,6 +299,15 @@ def global_state(repo, res):
                             tgt = t.id
                 if isinstance(n, ast.Call) and isinstance(n.func, ast.Attribute) and n.func.attr in MUTATING and is_glob(n.func.value, n):
                     tgt = is_glob(n.func.value, n)
+                if isinstance(n, ast.Call) and call_name(n) == "next" and n.args and is_glob(n.args[0], n):
+                    tgt = is_glob(n.args[0], n)
+                if isinstance(n, (ast.Assign, ast.AugAssign)) and f.cls is not None:
+                    ts = n.targets if isinstance(n, ast.Assign) else [n.target]
+                    for t in ts:
+                        if isinstance(t, ast.Attribute):
+                            base = ast.unparse(t.value)
+                            if base in (f.cls.name, "cls", "type(self)", "self.__class__") and f.node.name != "__init_subclass__":
+                                res.fail(f"{f.key}:mutates-class-attr:{t.attr}", f"{f.key} stores into class attribute {base}.{t.attr}: state shared by all instances and compilations", m.line(n))
                 if isinstance(n, ast.Delete):
                     for t in n.targets:
                         if isinstance(t, ast.Subscript) and is_glob(t.value, n):
